@@ -116,8 +116,8 @@ def _subclasscheck_tuple(cls, subcls):
     if not cls_args:  # cls is base Tuple
         return True
 
-    if not subcls_args:
-        return cls_args[0] is typing.Any
+    if not subcls_args:  # subcls is base Tuple, i.e. Tuple[Any, ...]
+        return cls_args[-1] is Ellipsis and cls_args[0] is typing.Any
 
     if cls_args[-1] is Ellipsis:  # cls variadic
         if subcls_args[-1] is Ellipsis:  # both variadic
